@@ -61,11 +61,24 @@ pub fn delaunay_reduce(basis: &Matrix3<f64>) -> (Matrix3<f64>, Matrix3<i32>) {
     let mut argsort = (0..7).collect::<Vec<_>>();
     argsort.sort_by(|&i, &j| norms[i].partial_cmp(&norms[j]).unwrap());
 
-    let trans_mat_shortest = Matrix3::<i32>::from_columns(&[
-        basis_candidates[argsort[0]],
-        basis_candidates[argsort[1]],
-        basis_candidates[argsort[2]],
-    ]);
+    // First triple in length order that is a basis of the lattice (|det| = 1);
+    // (b1, b2, b3) always qualifies, so the search cannot fail.
+    let mut trans_mat_shortest = Matrix3::<i32>::identity();
+    'search: for a in 0..7 {
+        for b in (a + 1)..7 {
+            for c in (b + 1)..7 {
+                let triple = Matrix3::<i32>::from_columns(&[
+                    basis_candidates[argsort[a]],
+                    basis_candidates[argsort[b]],
+                    basis_candidates[argsort[c]],
+                ]);
+                if triple.map(|e| e as f64).determinant().round().abs() == 1.0 {
+                    trans_mat_shortest = triple;
+                    break 'search;
+                }
+            }
+        }
+    }
     trans_mat *= trans_mat_shortest;
     reduced_basis *= trans_mat_shortest.map(|e| e as f64);
 
